@@ -291,10 +291,10 @@ class VectorRun:
         want = spec_valid(self.spec)
         if out == "rej":
             self.obs = ["rej"]
-            if want:
+            if want is True:
                 self.find("constructor/rejects_valid", "the constructor raised ValueError on valid arguments", -1)
             return
-        if not want:
+        if want is False:
             self.find("constructor/accepts_invalid", "the constructor accepted arguments it must reject", -1)
         vecs = self.vecs
         ws = WorldSnap(np, vecs)
@@ -485,8 +485,9 @@ def effective_bounds(sp):
 
 def spec_valid(sp):
     """constructor contract, stated independently: consistent flags, unique names, right lengths, NaN only when
-    allowed, maxs not below mins and defaults not outside [mins, maxs] by more than EPS (1e-10; the generators keep
-    5e-11 or >= 1e-6 away from that margin)"""
+    allowed, maxs not below mins, defaults inside [mins, maxs]. Returns True / False, or None (undecided) when some
+    maxs / defaults value lies outside its interval by less than 1e-6 — the property conditions on values on the
+    bound or at least 1e-6 away, and the constructor has a 1e-10 tolerance there."""
     n = len(sp["names"])
     if sp["ch"] and not sp["cb"]:
         return False
@@ -498,13 +499,27 @@ def spec_valid(sp):
                 return False
             if any(x != x for x in sp[key]) and not sp["an"]:
                 return False
+    if any(x != x for key in ("mins", "maxs") if sp[key] is not None for x in sp[key]):
+        return None          # NaN bounds: outside the quantifier
     lo = [-INF] * n if sp["mins"] is None else sp["mins"]
-    if sp["maxs"] is not None and any(m < a - 1e-10 for m, a in zip(sp["maxs"], lo)):
+    verdict = True
+    if sp["maxs"] is not None:
+        for m, a in zip(sp["maxs"], lo):
+            if m < a:
+                if a - m < 1e-6:
+                    return None
+                verdict = False
+    if not verdict:
         return False
-    hi = [INF] * n if sp["maxs"] is None else [max(a, b) if a == a and b == b else NAN for a, b in zip(sp["maxs"], lo)]
-    if sp["defaults"] is not None and any(d < a - 1e-10 or d > b + 1e-10 for d, a, b in zip(sp["defaults"], lo, hi)):
-        return False
-    return True
+    hi = [INF] * n if sp["maxs"] is None else [max(a, b) for a, b in zip(sp["maxs"], lo)]
+    if sp["defaults"] is not None:
+        for d, a, b in zip(sp["defaults"], lo, hi):
+            if d != d or a <= d <= b:
+                continue
+            if (a - d if d < a else d - b) < 1e-6:
+                return None
+            verdict = False
+    return verdict
 
 
 def gen_spec(rng):
